@@ -129,7 +129,13 @@ def main():
     if a.only:
         ms = [m for m in ms if a.only in m["id"]]
     if a.prop:
-        ms = [m for m in ms if a.prop in m["props"]]
+        sel = []
+        for m in ms:
+            if a.prop in m["props"]:
+                if m["kind"] == "equiv":
+                    m = dict(m, props=[a.prop])
+                sel.append(m)
+        ms = sel
     if a.list:
         for m in ms:
             print(m["kind"], m["id"], m["props"], m.get("expect", ""))
